@@ -174,7 +174,10 @@ func variants(root *node, fault string, s site) []string {
 		return []string{"%", "%0a%", "%zz", "%0a%zz", "%e4%b8", "pre:%", "pre:%0a%", "%%", "%2", "%2f%", "%2F", "%25", "%e4%b8%96"}
 	case "code-key":
 		// invalid or out-of-range response codes; the last two are valid controls
-		return []string{"600", "99", "1000", "0", "999", "-1", "99999999999999999999", "6XX", "0200", "20", "418", "2XX"}
+		return []string{"600", "99", "1000", "0", "999", "-1", "99999999999999999999", "6XX", "0200", "20",
+			// range patterns whose class character is not 1-5
+			"0XX", "-XX", " XX", "+XX", "9XX", "XXX", "/XX", "1xx", "10X", "XX", "éXX",
+			"418", "2XX"}
 	case "code-null", "code-dup":
 		return []string{""}
 	case "dangling":
